@@ -25,6 +25,9 @@ type WEntry struct {
 type WLink struct {
 	Kind  string `json:"kind"` // post | actor | external | missing
 	Index int    `json:"index"`
+	// Att (posts; such links come after all body links): "" = a link in the body; "att" = an attachment;
+	// "nourl" = an attachment that has a name but nothing to open: it has its number, the number opens nothing
+	Att string `json:"att,omitempty"`
 }
 
 type WPost struct {
@@ -187,8 +190,16 @@ func (w *World) Install(sim *vsim.Sim, prefix string) {
 	}
 	for i, p := range w.Posts {
 		content := "<p>body of " + PostTok(i) + w.hostile(3*i) + "</p>"
+		attachments := []any{}
 		for _, l := range p.Links {
-			content += fmt.Sprintf(`<p><a href="%s">link</a></p>`, w.LinkURL(prefix, l))
+			switch l.Att {
+			case "att":
+				attachments = append(attachments, map[string]any{"type": "Link", "name": "attached", "href": w.LinkURL(prefix, l)})
+			case "nourl":
+				attachments = append(attachments, map[string]any{"type": "Document", "name": "nothing to open"})
+			default:
+				content += fmt.Sprintf(`<p><a href="%s">link</a></p>`, w.LinkURL(prefix, l))
+			}
 		}
 		m := map[string]any{"id": w.PostURL(prefix, i), "type": p.Kind, "name": PostTok(i) + w.hostile(3*i+1), "content": content, "published": "2023-06-01T00:00:00Z"}
 		switch p.Parent {
@@ -213,6 +224,9 @@ func (w *World) Install(sim *vsim.Sim, prefix string) {
 				l = append(l, w.ActorURL(prefix, a))
 			}
 			m["audience"] = l
+		}
+		if len(attachments) > 0 {
+			m["attachment"] = attachments
 		}
 		if p.Media {
 			m["url"] = []any{map[string]any{"type": "Link", "href": ExternalURL(5000 + i), "mediaType": "video/mp4"}}
@@ -336,6 +350,12 @@ func GenWorld(t *rapid.T) *World {
 		nl := rapid.SampledFrom([]int{0, 0, 1, 2, 3}).Draw(t, "nlinks")
 		for l := 0; l < nl; l++ {
 			p.Links = append(p.Links, genLink(t, np, na, 10*i+l))
+		}
+		// attachments are numbered on after the links of the body, by position - also those with nothing to open (seed C07-L)
+		for l, natt := 0, rapid.SampledFrom([]int{0, 0, 0, 1, 2, 3}).Draw(t, "natts"); l < natt; l++ {
+			att := genLink(t, np, na, 10*i+5+l)
+			att.Att = rapid.SampledFrom([]string{"att", "att", "nourl"}).Draw(t, "attkind")
+			p.Links = append(p.Links, att)
 		}
 	}
 	stamp := 0
